@@ -175,6 +175,12 @@ func (vc *VC) libCall(fr *frame, n *Node, x *ssa.Call, callee *ssa.Function, arg
 		sub := vc.strSub(args[0].T, fmt.Sprintf("(strlen %s)", args[1].T), fmt.Sprintf("(strlen %s)", args[0].T))
 		vc.defVal(n, x, fmt.Sprintf("(ite (strhasprefix %s %s) %s %s)", args[0].T, args[1].T, sub, args[0].T))
 		return true
+	case "github.com/ianlancetaylor/demangle.Filter":
+		trust("demangle.Filter: returns its argument when it cannot demangle it, otherwise a non-empty demangled form (non-empty result for a non-empty argument)")
+		rs := vc.freshResults(n, x.Name(), sig)
+		vc.assume(fmt.Sprintf("(=> (> (strlen %s) 0) (> (strlen %s) 0))", args[0].T, rs[0].T))
+		vc.bindResult(n, x, sig, rs)
+		return true
 	case "(*regexp.Regexp).FindString":
 		trust("(*regexp.Regexp).FindString: the result is a substring (no longer than the argument)")
 		rs := vc.freshResults(n, x.Name(), sig)
